@@ -115,3 +115,103 @@ func firstUseChild(args []string) {
 	}
 	fmt.Printf("ok rounds=%d racers=%d\n", rounds, racers)
 }
+
+// Submit racing Shutdown (a line of area stress; outside the contract of the queue, inside the model since
+// Model/TaskQueueEnv.lean):
+//
+//	race <workers> <gomaxprocs> <submitters> <rounds> <seed>
+//
+// In every round a fresh queue gets three tasks from each of `submitters` goroutines while another goroutine calls
+// Shutdown after a short random delay.  What the code does, and the model says: a Submit whose send completed before the
+// close is accepted — its task runs exactly once and has finished when Shutdown returns; every other Submit panics in
+// its caller ("send on closed channel", also when it was blocked at the close) and its task never runs.  Judged per
+// round: accepted XOR panicked; accepted => ran once before Shutdown returned; panicked => never ran; Shutdown returns.
+func raceChild(args []string) {
+	if len(args) != 5 {
+		fmt.Println("FAIL bad child arguments")
+		return
+	}
+	workers, procs, subs, rounds := hx.Atoi(args[0]), hx.Atoi(args[1]), hx.Atoi(args[2]), hx.Atoi(args[3])
+	rr := hx.NewRng(uint64(hx.Atoi(args[4])))
+	runtime.GOMAXPROCS(procs)
+	var round atomic.Int32
+	go func() {
+		start := time.Now()
+		last, since := round.Load(), time.Now()
+		for {
+			time.Sleep(100 * time.Millisecond)
+			if cur := round.Load(); cur != last {
+				last, since = cur, time.Now()
+			}
+			if time.Since(since) > 3*time.Second || time.Since(start) > 40*time.Second {
+				break
+			}
+		}
+		fmt.Printf("FAIL hang: round %d of Submit racing Shutdown did not end within 3s (Shutdown or a Submit blocked for ever)\n", round.Load())
+		os.Exit(0)
+	}()
+	n := subs * 3
+	for r := 0; r < rounds; r++ {
+		round.Store(int32(r))
+		depth := []int{-1, 0, 1, 3}[rr.Intn(4)]
+		q := taskqueue.New(withInCap([]taskqueue.Option{taskqueue.Workers(workers), taskqueue.Depth(depth)}, 1+rr.Intn(3))...)
+		ran := make([]atomic.Int32, n)
+		outcome := make([]atomic.Int32, n) // 1 = Submit returned, 2 = Submit panicked in the caller
+		delay := time.Duration(rr.Intn(40)) * time.Microsecond
+		var wg sync.WaitGroup
+		for g := 0; g < subs; g++ {
+			wg.Add(1)
+			go func(g int) {
+				defer wg.Done()
+				for k := 0; k < 3; k++ {
+					id := g*3 + k
+					func() {
+						defer func() {
+							if recover() != nil {
+								outcome[id].Store(2)
+							}
+						}()
+						q.Submit(func() {
+							runtime.Gosched()
+							ran[id].Add(1)
+						})
+						outcome[id].Store(1)
+					}()
+				}
+			}(g)
+		}
+		time.Sleep(delay)
+		q.Shutdown()
+		atReturn := 0
+		for i := range ran {
+			atReturn += int(ran[i].Load())
+		}
+		wg.Wait() // every Submit has returned or panicked: none may stay blocked on a closed channel
+		for i := 0; i < 3; i++ {
+			runtime.Gosched()
+		}
+		after := 0
+		for i := range ran {
+			after += int(ran[i].Load())
+		}
+		if after != atReturn {
+			fmt.Printf("FAIL Submit racing Shutdown, round %d (depth %d): %d tasks ran after Shutdown had returned\n", r, depth, after-atReturn)
+			return
+		}
+		for i := range ran {
+			o, c := outcome[i].Load(), ran[i].Load()
+			switch {
+			case o == 1 && c != 1:
+				fmt.Printf("FAIL Submit racing Shutdown, round %d (depth %d): Submit of task %d returned normally but the task ran %d times\n", r, depth, i, c)
+				return
+			case o == 2 && c != 0:
+				fmt.Printf("FAIL Submit racing Shutdown, round %d (depth %d): Submit of task %d panicked in its caller but the task ran %d times\n", r, depth, i, c)
+				return
+			case o != 1 && o != 2:
+				fmt.Printf("FAIL Submit racing Shutdown, round %d (depth %d): Submit of task %d neither returned nor panicked\n", r, depth, i)
+				return
+			}
+		}
+	}
+	fmt.Printf("ok rounds=%d submitters=%d\n", rounds, subs)
+}
